@@ -42,11 +42,21 @@ pub const SEARCHES: [&str; 9] = [
 pub struct CountingQuota {
     pub limit: u64,
     pub polls: AtomicU64,
+    /// concurrent observation: the poll coordinate is the position on the scheduler's virtual timeline (kernel/sched.rs)
+    pub concurrent: bool,
+}
+
+impl CountingQuota {
+    /// Position on the poll coordinate reached so far.
+    pub fn position(&self) -> u64 {
+        if self.concurrent { crate::kernel::sched::vt_now() } else { self.polls.load(Ordering::SeqCst) }
+    }
 }
 
 impl Quota for CountingQuota {
     fn is_reached(&self) -> bool {
-        let c = self.polls.fetch_add(1, Ordering::SeqCst);
+        let n = self.polls.fetch_add(1, Ordering::SeqCst);
+        let c = if self.concurrent { crate::kernel::sched::vt_tick() } else { n };
         sys::log_event(0x0107A, c, self.limit);
         c >= self.limit
     }
@@ -60,6 +70,8 @@ pub struct W2Case {
     pub script: Vec<String>,
     pub pools: (usize, usize),
     pub quota: Option<u64>,
+    /// leaves of one fork-join on different workers observe the quota concurrently (virtual timeline, kernel/sched.rs)
+    pub quota_concurrent: bool,
     pub init: String,
     pub rel: crate::scen::relgen::RelStats,
 }
@@ -67,7 +79,7 @@ pub struct W2Case {
 impl W2Case {
     pub fn to_json(&self) -> Value {
         json!({ "kind": "w2", "problem": self.problem, "matrices": self.matrices, "spec": self.spec.to_json(),
-            "script": self.script, "pools": [self.pools.0, self.pools.1], "quota": self.quota, "init": self.init })
+            "script": self.script, "pools": [self.pools.0, self.pools.1], "quota": self.quota, "quota_concurrent": self.quota_concurrent, "init": self.init })
     }
     pub fn from_json(v: &Value) -> Option<Self> {
         Some(W2Case {
@@ -77,6 +89,7 @@ impl W2Case {
             script: v.get("script")?.as_array()?.iter().filter_map(|s| s.as_str().map(|s| s.to_string())).collect(),
             pools: (v["pools"][0].as_u64().unwrap_or(0) as usize, v["pools"][1].as_u64().unwrap_or(0) as usize),
             quota: v.get("quota").and_then(|q| q.as_u64()),
+            quota_concurrent: v.get("quota_concurrent").and_then(|q| q.as_bool()).unwrap_or(false),
             init: v.get("init").and_then(|s| s.as_str()).unwrap_or("cheapest").to_string(),
             rel: Default::default(),
         })
@@ -475,8 +488,10 @@ pub fn execute(case: &W2Case, cache_checks: bool, per_insertion: bool) -> crate:
             Ok(m) => m,
             Err(e) => return sys::monitor(|| W2Out { rejected: Some(format!("oracle: {e}")), ..Default::default() }),
         };
-        let quota = case.quota.map(|k| Arc::new(CountingQuota { limit: k, polls: AtomicU64::new(0) }));
-        let parallelism = if case.pools.0 > 0 { Parallelism::new(case.pools.0, case.pools.1) } else { Parallelism::new_with_cpus(4) };
+        let concurrent = case.quota_concurrent && case.quota.is_some();
+        sys::monitor(|| crate::kernel::sched::vt_reset(concurrent));
+        let quota = case.quota.map(|k| Arc::new(CountingQuota { limit: k, polls: AtomicU64::new(0), concurrent }));
+        let parallelism = if case.pools != (0, 0) { Parallelism::new(case.pools.0, case.pools.1) } else { Parallelism::new_with_cpus(4) };
         let env = Arc::new(Environment::new(
             Arc::new(DefaultRandom::default()),
             quota.clone().map(|q| q as Arc<dyn Quota>),
@@ -606,7 +621,7 @@ pub fn execute(case: &W2Case, cache_checks: bool, per_insertion: bool) -> crate:
             out.init_issues = init_issues
         });
         refinement_ctx.add_solution(current.deep_copy());
-        let init_polls = quota.as_ref().map(|q| q.polls.load(Ordering::SeqCst)).unwrap_or(0);
+        let init_polls = quota.as_ref().map(|q| q.position()).unwrap_or(0);
         sys::monitor(|| out.init_polls = init_polls);
 
         let mut hyper_dynamic = get_dynamic_heuristic(problem.clone(), env.clone());
@@ -638,7 +653,7 @@ pub fn execute(case: &W2Case, cache_checks: bool, per_insertion: bool) -> crate:
                 _ => (Some(make_search(name, &problem, &env, &mut p).search(&refinement_ctx, &current)), false),
             };
             let after = sys::monitor(|| digest_ctx(&current));
-            let polls_now = quota.as_ref().map(|q| q.polls.load(Ordering::SeqCst)).unwrap_or(0);
+            let polls_now = quota.as_ref().map(|q| q.position()).unwrap_or(0);
             let report = sys::monitor(|| {
                 let mut r = StepReport { op: op.as_str().to_string(), parent_changed: before != after, polls_after: polls_now, ..Default::default() };
                 if let Some(child) = child.as_ref() {
@@ -708,7 +723,7 @@ pub fn execute(case: &W2Case, cache_checks: bool, per_insertion: bool) -> crate:
             out.loop_cache_issues.extend(st.1.iter().cloned());
             out.insertions_observed = st.2;
         });
-        let polls = quota.map(|q| q.polls.load(Ordering::SeqCst)).unwrap_or(0);
+        let polls = quota.map(|q| q.position()).unwrap_or(0);
         sys::monitor(|| out.quota_polls = polls);
         drop(current);
         drop(refinement_ctx);
@@ -763,14 +778,14 @@ pub fn make_case(seed: u64, tier: Tier) -> (W2Case, gen::problem::Features) {
     if p.chance(0.3) {
         spec.stalls.push((p.range(1, 3000) as u64, *p.pick(&[250_000_000u64, 1_000_000_000, 5_000_000_000])));
     }
-    let pools = *p.pick(&[(0usize, 0usize), (0, 0), (1, 1), (1, 4), (2, 2), (4, 1), (3, 2)]);
+    let pools = *p.pick(&[(0usize, 0usize), (0, 0), (1, 1), (1, 4), (2, 2), (4, 1), (3, 2), (2, 0), (0, 2)]);
     let quota = if p.chance(0.15) { Some(p.range(0, 400) as u64) } else { None };
     let init = p.pick(&RECREATES).to_string();
     // user relations (pinning): derived from a first solve so that they are consistent with the constraints; the initial
     // individual of the script then starts from the tours the solver builds from them
     let mut problem = g.problem;
     let rel = if g.features.relations { crate::scen::relgen::augment(seed, &mut problem, &g.matrices) } else { Default::default() };
-    (W2Case { problem, matrices: g.matrices, spec, script, pools, quota, init, rel }, g.features)
+    (W2Case { problem, matrices: g.matrices, spec, script, pools, quota, quota_concurrent: false, init, rel }, g.features)
 }
 
 impl W2Scenario {
@@ -784,6 +799,10 @@ impl W2Scenario {
         }
         let mut base = case.clone();
         base.quota = Some(u64::MAX);
+        // half of the enumerations observe the quota concurrently: several leaves of one fork-join (partial problems of a
+        // decompose search, offspring of one hyper-heuristic step) are interrupted in the middle of their work at once
+        base.quota_concurrent = case.quota_concurrent || case.spec.sched_seed % 10 == 1;
+        let case = &base.clone();
         let (mut rec, bounds) = self.record_one(&base, features);
         if !rec.issues.is_empty() || rec.discarded.is_some() {
             return rec;
@@ -808,6 +827,7 @@ impl W2Scenario {
             points.sort();
         }
         rec.count("faults.interruption_enumeration_cases", 1);
+        rec.count("faults.interruption_enumeration_cases_with_concurrent_observation", case.quota_concurrent as u64);
         rec.count("faults.interruption_points_enumerated", points.len() as u64);
         for (k, step) in points {
             let mut faulted = case.clone();
